@@ -300,14 +300,40 @@ def config_kwargs(cfg):
                 biased_covariance=cfg["biased"], num_processors=1)
 
 
+def forced_labelling(cfg, npts):
+    """a labelling of the stacked points in which cluster K-1 ends with 0 / 1 / 2 points."""
+    K = cfg["K"]
+    kind = cfg["force_final"]
+    r = pyrandom.Random(cfg["seed"] + 77)
+    lab = [min(K - 2, (i * (K - 1)) // max(1, npts)) if K > 1 else 0 for i in range(npts)]
+    n_last = {"empty": 0, "singleton": 1, "pair": 2}[kind]
+    for pos in r.sample(range(npts), min(n_last, npts)):
+        lab[pos] = K - 1
+    return lab
+
+
 def execute(cfg, trace=True, **trace_kw):
-    """returns (result or None, Trace or None, exception or None, data series)."""
+    """returns (result or None, Trace or None, exception or None, data series).
+    cfg['force_final'] in {'empty','singleton','pair'}: the relabel phase's output labelling is replaced
+    (use with limit=1) so that the result is assembled for a final labelling with a tiny cluster."""
     import warnings
     series = config_data(cfg)
     seed_all(cfg["seed"])
     tr = Trace(**trace_kw) if trace else None
     res, err = None, None
-    with warnings.catch_warnings():
+    stack = contextlib.ExitStack()
+    if cfg.get("force_final"):
+        from fast_ticc import cluster_label_assignment as _cla
+        npts = sum(s.shape[0] - cfg["W"] + 1 for s in series)
+        forced = forced_labelling(cfg, npts)
+        _orig = _cla.predict_cluster_labels
+
+        def _forced(model, data):
+            out = _orig(model, data)
+            out.point_labels = list(forced)
+            return out
+        stack.enter_context(patched(_cla, "predict_cluster_labels", _forced))
+    with stack, warnings.catch_warnings():
         warnings.simplefilter("ignore")
         try:
             if tr is not None:
